@@ -16,8 +16,8 @@ ID = "C18"
 COQ_IMPORT = "Corr.CNodes"
 COQ_CASE_TYPE = "g_case"
 COQ_CHECK = "g_check"
-THEOREMS = []
-PROOF_FILES = ["Proofs/SerialProofs.v"]
+THEOREMS = ["c18_whitelist", "c18_whitelist_exact", "c18_closed", "c18_unlisted_raises", "c18_bytes_tag_raises", "c18_unknown_key_raises", "c18_missing_mandatory_raises", "c18_tables_total"]
+PROOF_FILES = ["Proofs/MirrorClosedProofs.v"]
 RULE = ("type strings: every name bound in nir, nir.ir, nir.ir.* submodules, nir.serialization and builtins, case / "
         "whitespace / NUL / bytes variants of every legal name, random unicode — each with plausible fields; for each "
         "of the 18 serialisable kinds every single-field deletion and the insertion of a non-field key, at nesting "
